@@ -21,8 +21,21 @@ META = {
 }
 
 
+def collision_cases():
+    """nodes named like the helper nodes tx.ternary creates (<p>_is_0, <p>_is_1, <p>_not_x, <g>_x_in_fi, <g>_0_not_in_fi, <g>_1_not_in_fi, <n>_X)"""
+    from cgv.net import mkspec
+    out = []
+    for t in ("and", "nand", "or", "nor", "xor"):
+        I = [("a", "input", []), ("b", "input", [])]
+        named = [("a_is_0", "nor", ["a", "b"]), ("a_is_1", "and", ["a", "b"]), ("b_is_0", "xor", ["a", "b"]), ("a_not_x", "not", ["a"]), ("b_not_x", "buf", ["b"]),
+                 ("g_x_in_fi", "or", ["a", "b"]), ("g_0_not_in_fi", "xor", ["a", "b"]), ("g_1_not_in_fi", "xnor", ["a", "b"]), ("a_X", "nand", ["a", "b"]), ("g_X", "nor", ["a", "a_X"])]
+        g = [("g", t, ["a", "b"], True), ("h", t, ["g", "a_is_0", "a_not_x"], True), ("o", "or", [n for n, _, _ in named], True)]
+        out.append((("collide", t), mkspec(f"collide_{t}", I + named + g)))
+    return out
+
+
 def all_cases(ctx):
-    cs = F.f_unit(5) + F.f_shape()
+    cs = F.f_unit(5) + F.f_shape() + collision_cases()
     cs += F.renamed([c for c in F.f_unit(3) if c[0][0] == "pair"][:12] + [c for c in F.f_unit(3, pairs=False)], "ternary")
     cs += F.f_rand(ctx.seed, 30 if ctx.quick else 300)
     if not ctx.quick:
@@ -42,7 +55,9 @@ def run(ctx):
             continue
         ctx.sample({"case": cid, "circuit": spec})
         det = {"case": cid, "circuit": spec if len(spec["nodes"]) < 25 else None}
-        res, e = call(tx.ternary, build(spec))
+        carg = build(spec)
+        res, e = call(tx.ternary, carg)
+        ctx.unchanged("ternary", carg, spec)
         if e is not None:
             ctx.side("ternary-raises", False, f"ternary:raises:{type(e).__name__}", f"ternary raised {e!r}", det)
             continue
